@@ -31,6 +31,7 @@ func init() {
 			{Name: "stale-stat-error", File: "extractor/filesystem/filesystem.go", Old: "		api.currentFileInfo, api.currentStatErr = fs.Stat(api.fs, api.currentPath)\n", New: "		info, err := fs.Stat(api.fs, api.currentPath)\n		if err != nil {\n			api.currentStatErr = err\n			return nil, err\n		}\n		api.currentFileInfo = info\n", Rule: "D3-lazystat", Site: "currentStatErr"},
 			{Name: "walker-skipdir", File: "extractor/filesystem/internal/walkdir_iterate.go", Old: "			// End iteration after an error\n			return nil\n		}\n		name1", New: "			// End iteration after an error\n			return fs.SkipDir\n		}\n		name1", Rule: "D2-walker-returns", Site: "walkDirUnsorted"},
 		},
+		Neutral: handleFileNeutral,
 	})
 }
 
@@ -185,7 +186,9 @@ func c09Fatal(p *Prog, r *Report, e *engine) {
 	// fatal on request: fserr != nil ∧ errorOnFSErrors ⇒ non-nil return derived from fserr
 	hf := newFA(p, r, e.handleFile)
 	fserr := hf.fn.Params[3]
-	fsHolds, _ := guardEdges(hf.fn, condNonNil(func(v ssa.Value) bool { return v == fserr }))
+	// fserr is a parameter (one SSA value): along a path that took a fserr != nil edge every later
+	// fserr == nil edge is infeasible, so those edges are cut in the searches below.
+	fsHolds, fsFails := guardEdges(hf.fn, condNonNil(func(v ssa.Value) bool { return v == fserr }))
 	if len(fsHolds) == 0 {
 		r.Fail("D1-fatal-on-request", hf.key+":fserr-test", p.Pos(hf.fn.Pos()), "the callback does not test its error parameter")
 		return
@@ -212,14 +215,14 @@ func c09Fatal(p *Prog, r *Report, e *engine) {
 				}
 			}
 			return true
-		}, nil, nil, "with errorOnFSErrors a traversal error is returned wrapped", "with errorOnFSErrors set a traversal failure does not abort the walk (a nil or unrelated error is returned)")
+		}, nil, edgesOf(fsFails), "with errorOnFSErrors a traversal error is returned wrapped", "with errorOnFSErrors set a traversal failure does not abort the walk (a nil or unrelated error is returned)")
 	}
 	r.Check(n > 0, "D1-fatal-on-request", hf.key+":errorOnFSErrors-under-fserr", p.Pos(hf.fn.Pos()), "errorOnFSErrors consulted when fserr != nil", "errorOnFSErrors is not consulted on the fserr != nil path")
 	// non-fatal fserr path returns nil without touching d and without dispatch
 	for _, ed := range fsHolds {
 		hf.noPath("D1-fatal-only-on-request", "fserr-path-ends", edgeStart(ed), func(in ssa.Instruction) bool {
 			return in == ssa.Instruction(e.dispatchCall)
-		}, nil, nil, "the error path never dispatches", "after a traversal error the callback continues into extraction")
+		}, nil, edgesOf(fsFails), "the error path never dispatches", "after a traversal error the callback continues into extraction")
 	}
 	// RunFS / Run / runOnScanRoot forward the walk's error
 	for _, fn := range []*ssa.Function{e.RunFS, e.runOnScanRoot, e.Run} {
